@@ -43,7 +43,7 @@ def line(req):
     if op == 'visit':
         from . import real_disc
         return real_disc.visit_line(req)
-    if op in ('render', 'pvisit', 'ptruth', 'pauto'):
+    if op in ('render', 'pvisit', 'ptruth', 'pauto', 'pautoh'):
         from . import real_disc
         return real_disc.prog_line(op, req[1]) + (' pmask' if False else '')
     if op in ('pyeq', 'pyne', 'hasheq'):
